@@ -13,6 +13,7 @@ import (
 	"fmt"
 	"math/rand"
 	"os"
+	"os/exec"
 	"path/filepath"
 	"strings"
 )
@@ -315,7 +316,8 @@ func (g *cstGen) eolws() string {
 	return s
 }
 
-var cstIdents = []string{"a", "b", "x", "build", "test_all", "GLOBAL", "_p", "é", "日本", "naïve", "Ωmega", "ta", "tas", "tasks", "taskx", "t", "join", "exec", "clean", "default"}
+var cstIdents = []string{"a", "b", "x", "build", "test_all", "GLOBAL", "_p", "é", "日本", "naïve", "Ωmega", "ta", "tas", "tasks", "taskx", "t", "join", "exec", "clean", "default",
+	"בנה", "build_בנה", "имя", "λx", "ß", "×x"[2:], "نام", "ｆｕｌｌ", "𝒳"} // letters whose UTF-8 lead bytes cover 0xC3..0xF0, incl. 0xD7 (Hebrew), whose Latin-1 reading is not a letter
 
 func (g *cstGen) ident() string {
 	s := cstIdents[g.r.Intn(len(cstIdents))]
@@ -586,6 +588,7 @@ func cstCmd(args []string) error {
 	seed := fs.Int64("seed", 1, "")
 	shard := fs.Int("shard", 0, "")
 	nshards := fs.Int("nshards", 1, "")
+	spokBin := fs.String("spok", "", "path to the built spok binary (for the --fmt runs)")
 	fs.Parse(args)
 	sfx := fmt.Sprintf(".%d.txt", *shard)
 	fc, _ := os.Create(filepath.Join(*out, "cases"+sfx))
@@ -593,6 +596,9 @@ func cstCmd(args []string) error {
 	fo, _ := os.Create(filepath.Join(*out, "oracle"+sfx))
 	bc, bi, bo := bufio.NewWriterSize(fc, 1<<20), bufio.NewWriterSize(fi, 1<<20), bufio.NewWriter(fo)
 	st := cstStats{Features: map[string]int{}, Stmts: map[string]int{}, Outcomes: map[string]int{}, OracleFail: map[string]int{}}
+	if *spokBin != "" {
+		fmtCLI(*spokBin, *out, *seed, *shard, *tier, &st, bo)
+	}
 	g := &cstGen{r: rand.New(rand.NewSource(*seed*7919 + int64(*shard))), feats: st.Features}
 	n := 40000
 	if *tier == "thorough" {
@@ -657,4 +663,85 @@ func cstCmd(args []string) error {
 	fo.Close()
 	sj, _ := json.Marshal(st)
 	return os.WriteFile(filepath.Join(*out, fmt.Sprintf("stats.%d.json", *shard)), sj, 0o644)
+}
+
+// fmtCLI: `spok --fmt` itself (C07 is about the command that overwrites the user's file, not only about Tree.String()).
+// Loadable spokfiles - every task dependency is defined, no exec - with repeated dependencies, shared outputs and odd
+// layout are written to a project directory, `spok --fmt` is run there, and the file it leaves behind must be exactly what
+// the formatter gives for the parsed tree, and must parse to the same variables and tasks.
+func fmtCLI(spok, out string, seed int64, shard int, tier string, st *cstStats, bo *bufio.Writer) {
+	r := rand.New(rand.NewSource(seed*104729 + int64(shard)))
+	n := 40
+	if tier == "thorough" {
+		n = 400
+	}
+	tmp, err := os.MkdirTemp(out, "fmtcli")
+	if err != nil {
+		return
+	}
+	defer os.RemoveAll(tmp)
+	files := []string{"\"main.go\"", "\"go.mod\"", "\"*.txt\"", "\"**/*.go\"", "\"a b.txt\""}
+	for k := 0; k < n; k++ {
+		var b strings.Builder
+		if r.Intn(2) == 0 {
+			b.WriteString("OUT := \"out.bin\"\n# a comment\n")
+		}
+		nt := 1 + r.Intn(4)
+		for t := 0; t < nt; t++ {
+			var deps []string
+			for i, m := 0, r.Intn(5); i < m; i++ {
+				if t > 0 && r.Intn(3) == 0 {
+					deps = append(deps, fmt.Sprintf("t%c", 'a'+r.Intn(t)))
+				} else {
+					deps = append(deps, files[r.Intn(len(files))])
+				}
+				if len(deps) > 0 && r.Intn(3) == 0 {
+					deps = append(deps, deps[r.Intn(len(deps))]) // the same dependency named again
+				}
+			}
+			if r.Intn(3) == 0 {
+				b.WriteString("# doc\n")
+			}
+			sep := []string{", ", ",", " ,\t", ",\n    "}[r.Intn(4)]
+			fmt.Fprintf(&b, "task t%c(%s)", 'a'+t, strings.Join(deps, sep))
+			switch r.Intn(4) {
+			case 0:
+				b.WriteString(" -> \"x.o\"")
+			case 1:
+				b.WriteString(" -> (\"x.o\", \"x.o\", \"y.o\")")
+			case 2:
+				if strings.HasPrefix(b.String(), "OUT") {
+					b.WriteString(" -> OUT")
+				}
+			}
+			b.WriteString(" {\n\techo hi\n  ls -l\n}\n")
+		}
+		src := b.String()
+		want := parseOnce(src)
+		if want.err != nil || want.hang || want.pnc != "" {
+			continue
+		}
+		proj := filepath.Join(tmp, fmt.Sprintf("p%d", k))
+		os.MkdirAll(proj, 0o755)
+		os.WriteFile(filepath.Join(proj, "spokfile"), []byte(src), 0o644)
+		cmd := exec.Command(spok, "--fmt")
+		cmd.Dir = proj
+		cmd.Env = []string{"HOME=" + tmp, "PATH=/usr/bin:/bin"}
+		if err := cmd.Run(); err != nil {
+			st.Features["fmt_cli_refused"]++
+			continue
+		}
+		st.Features["fmt_cli_runs"]++
+		got, _ := os.ReadFile(filepath.Join(proj, "spokfile"))
+		if string(got) != want.tree.String() {
+			st.OracleFail["C07"]++
+			fmt.Fprintf(bo, "C07 %s `spok --fmt` left %q in the file, the formatter gives %q for the parsed tree\n", hx(src), string(got), want.tree.String())
+			continue
+		}
+		again := parseOnce(string(got))
+		if again.err != nil || sem(again.tree) != sem(want.tree) {
+			st.OracleFail["C07"]++
+			fmt.Fprintf(bo, "C07 %s the file written by `spok --fmt` does not define the same variables and tasks\n", hx(src))
+		}
+	}
 }
